@@ -110,6 +110,9 @@ def known_apply_failure(text, verdict, err):
   """Mechanism keys of the open findings about applies that fail (see known_findings.txt)."""
   if verdict[0] == 'invalid_compile' and err.cls in SYNTAX_ERRORS:
     return 'compile_time_syntax_error_fails_apply'
+  if verdict[0] == 'invalid' and err.cls == 'IndexError':
+    # building the error stub fails: the reported line of the syntax error lies beyond the last line of the text
+    return 'error_stub_position_out_of_range'
   return None
 
 
@@ -187,12 +190,13 @@ def run_stream(acc, hseed, nprobes):
         C = snapshot.rows_of(S1, '_grist_Tables_column')
         have_p2 = [r_ for r_, c in C.items() if c['colId'] == 'P2'][0]
         # the new column also appears in metadata: compare S1 against itself later; isolation = the rest of T and U
+        # (the other probe column holds an arbitrary earlier text, e.g. a bare `raise`, whose error depends on the
+        # interpreter's exception context: probe columns are never part of the isolation comparison)
         d = snapshot.diff(S0, S1, only_tables=['U']) + [m for m in snapshot.diff(
-            {'T': (S0['T'][0], {c: v for c, v in S0['T'][1].items()})},
-            {'T': (S1['T'][0], {c: v for c, v in S1['T'][1].items() if c != 'P2'})})]
+            {'T': (S0['T'][0], {c: v for c, v in S0['T'][1].items() if c not in ('P', 'P2')})},
+            {'T': (S1['T'][0], {c: v for c, v in S1['T'][1].items() if c not in ('P', 'P2')})})]
       else:
-        cols = set(probe_cols) | ({'P'} if pname == 'two_columns' else set())
-        d = isolated(S0, S1, cols, pf)
+        d = isolated(S0, S1, {'P', 'P2'}, pf | ({have_p2} if have_p2 is not None else set()))
       acc.count('isolation_checks')
       if d:
         acc.violation('other_cells_changed', 'text %r in %s changed something else: %s' % (text, probe_cols, d[:3]), dict(detail, diff=d))
